@@ -868,9 +868,21 @@ fn run_seq_case(case: &str) {
 // ------------------------------------------------------------------------------------------
 // system-call generator
 
-const CLASSES: [&str; 15] = [
+const CLASSES: [&str; 16] = [
     "clean", "mkparent", "dirwrite", "emfile", "dotdot", "chdirup", "dup2same", "opendir", "filedot", "lsfull", "pipes",
-    "pipefull", "fdflags", "slashcreate", "cmdsearch",
+    "pipefull", "fdflags", "slashcreate", "cmdsearch", "cwdshape",
+];
+
+/// the directories of the tree: no operation of the case language adds or removes one (theorem
+/// `dirs_never_change`), so the generator can predict the working directory exactly
+const DIRS: [&[&str]; 4] = [&[], &["d1"], &["d2"], &["d1", "dd"]];
+
+/// operands of `chdir` that name their target in a non-canonical way (class `cwdshape`): trailing and doubled
+/// slashes, `.` components, `..` after a name, and the same shapes on regular files and missing names
+const CHDIR_SHAPES: [&str; 30] = [
+    "d1/", "d1//", "./d1/", "d1/./", "d1//dd", "d1/dd/", "d1/./dd/.", ".//d1", "dd/", "./dd//", "../d1/", "..//", "../",
+    "./", ".//.", "d2/./", "d1/dd/../", "d1/dd/..//dd/", "f1/", "nodir/", "g/", "../d2//", "dd/../dd/.", "d1/dd//../../d2/",
+    "./.", "dd/./..", "d2//", "../dd/", "d1/../d1//", "./g/.",
 ];
 
 struct Gen {
@@ -949,6 +961,38 @@ impl Gen {
             parts.insert(0, "."); // `d1//g` seen from d1 is `.//g`, never the absolute `/g`
         }
         (parts.join("/"), ups > 0)
+    }
+
+    /// `chdir operand` with the working directory the three parties must end up in predicted from `DIRS`
+    fn push_chdir(&mut self, operand: &str) {
+        let mut cur: Vec<&'static str> = self.cwd.clone();
+        let mut ok = true;
+        for c in operand.split('/') {
+            match c {
+                "" | "." => {}
+                ".." => {
+                    if cur.pop().is_none() {
+                        ok = false; // the guard answers ESCAPE
+                        break;
+                    }
+                }
+                name => {
+                    let mut next: Vec<&str> = cur.clone();
+                    next.push(name);
+                    match DIRS.iter().find(|d| d[..] == next[..]) {
+                        Some(d) => cur = d.to_vec(),
+                        None => {
+                            ok = false;
+                            break;
+                        }
+                    }
+                }
+            }
+        }
+        if ok {
+            self.cwd = cur;
+        }
+        self.ops.push(format!("chdir {operand}"));
     }
 
     /// a target
@@ -1099,6 +1143,14 @@ impl Gen {
                 let c = if self.rng.chance(1, 2) { "e" } else { "-" };
                 self.ops.push(format!("setfd {fd} {c}"))
             }
+            86..=88 if self.rng.chance(1, 3) => {
+                // an operand that is not written canonically (also in class `clean`)
+                let p = *self.rng.pick(&CHDIR_SHAPES);
+                self.push_chdir(p);
+                if self.rng.chance(1, 2) {
+                    self.ops.push("cwd".to_string());
+                }
+            }
             86..=88 => {
                 let opts: Vec<&'static str> = match self.cwd.as_slice() {
                     [] => vec!["d1", "d2", "d1/dd", "f1", "nodir", ".", "..", "d1/..", "f1/.", "f1/..", "d1/dd/..", "./d1", "./d1/./dd"],
@@ -1212,6 +1264,25 @@ impl Gen {
                     self.ops.push("chdir ..".to_string());
                     self.cwd.pop();
                     self.ops.push("cwd".to_string());
+                }
+            }
+            // the working directory after a `chdir` whose operand is not written canonically
+            "cwdshape" => {
+                let p = *self.rng.pick(&CHDIR_SHAPES);
+                self.push_chdir(p);
+                if self.rng.chance(2, 3) {
+                    self.ops.push("cwd".to_string());
+                }
+                if self.rng.chance(1, 3) {
+                    // what a relative path means afterwards
+                    let t = *self.rng.pick(&["f1", "d1/g", "d1/dd", "m1", "d2/n"]);
+                    let (path, dotdot) = self.rel(t);
+                    if dotdot || !matches!(t, "m1" | "d2/n") {
+                        self.ops.push(format!("stat {path}"));
+                    } else {
+                        self.ops.push(format!("open {path} w c 644"));
+                        self.upper += 1;
+                    }
                 }
             }
             "dup2same" => {
@@ -2399,7 +2470,7 @@ fn run_shell_case(tag: &str, script: &str) {
 /// (tag, script template); `%` is replaced by a per-instance suffix.  Tag `clean` = no catalogued
 /// divergence is involved.  Only built-ins of the real binary are used (`alias` without aliases is
 /// the do-nothing regular built-in, `typeset -p` the printer).
-const FRAGMENTS: [(&str, &str); 121] = [
+const FRAGMENTS: [(&str, &str); 127] = [
     ("clean", "x%=one; typeset -p x% >o%; x%=two; typeset -p x% >o%; read -r l <o%; typeset -p l"),
     ("clean", "x%=ap; typeset -p x% >>a%; x%=bp; typeset -p x% >>a%; umask >>a%"),
     ("clean", "set -C; alias >f1; s=$?; typeset -p s; typeset -p s >|f1; alias >n%; set +C; read -r l <f1; typeset -p l"),
@@ -2437,6 +2508,12 @@ const FRAGMENTS: [(&str, &str); 121] = [
     ("clean", "alias >d2; s=$?; typeset -p s; alias >>d1; s=$?; typeset -p s"),
     ("dotdot", "alias >d1/../up%; s=$?; typeset -p s; cd d1; alias >../up2%; s=$?; typeset -p s; cd .."),
     ("clean", "cd d1/dd; cd -P ..; typeset -p PWD; cd .."),
+    ("cwdshape", "cd -P d1/; typeset -p PWD; pwd -P; pwd; cd .."),
+    ("cwdshape", "cd -P ./d1//dd/.; s=$?; typeset -p s PWD; pwd -P; (pwd -P; cd -P ..//; pwd -P); x%=$(pwd -P); typeset -p x%; cd ../.."),
+    ("cwdshape", "cd -P d1//; alias >in%; pwd -P; cd -P dd/; pwd -P; cd -P ../..; pwd -P; typeset -p PWD OLDPWD"),
+    ("cwdshape", "cd d1/; pwd; pwd -P; typeset -p PWD; cd ./dd//; pwd; pwd -P; cd -P .; typeset -p PWD; cd ../..//; pwd"),
+    ("cwdshape", "cd -P f1/; s=$?; typeset -p s; cd -P nodir%//; s=$?; typeset -p s; cd -P d1/g/.; s=$?; typeset -p s; pwd -P"),
+    ("cwdshape", "cd -P d2/./; for i in ../d1/*; do typeset -p i; done; typeset -p PWD | { read -r l; typeset -p l; pwd -P; }; cd .."),
     ("clean", "cd d1; (alias >sub%); y=$(for i in *; do typeset -p i; done); typeset -p y; cd .."),
     ("clean", "cd d2; x%=q; typeset -p x% | { read -r l; typeset -p l >pp%; }; cd .."),
     ("clean", "umask 027; (alias >su%); alias | alias >sv%; umask 644"),
@@ -2661,7 +2738,7 @@ fn main() {
     let mut rng = Rng::new(opts.seed ^ 0xC19C_19C1);
     let n_seq = if thorough { 100_000 } else { 2_400 };
     for i in 0..n_seq {
-        let class = if i % 5 < 3 { "clean" } else { CLASSES[1 + (i / 5) % 14] };
+        let class = if i % 5 < 3 { "clean" } else { CLASSES[1 + (i / 5) % 15] };
         let case = gen_seq(&mut rng, class, thorough);
         if mine(&mut index) {
             run_seq_case(&case);
